@@ -95,7 +95,9 @@ case $mode in
     pids=()
     for c in $(clusters); do build_driver $c & pids+=($!); done
     rc=0; for p in "${pids[@]}"; do wait $p || rc=2; done
-    [ $rc = 0 ] || fail "driver build"
+    # a cluster that does not extract/compile must not block the others: every check rebuilds (and then
+    # insists on) the drivers it needs itself
+    [ $rc = 0 ] || echo "WARNING: some drivers did not build (each check rebuilds the ones it needs)" >&2
     echo "build ok"
     ;;
 esac
